@@ -1,1 +1,5 @@
-
+From Label Require Import LModel Iso Linear GenLabelFacts.
+Theorem C16_facts_pinned :
+  f_lin_dir gen_label_facts = DirInverse /\ f_lin_helpers gen_label_facts = true /\ f_iso_dir gen_label_facts = IsoDocumented.
+Proof. vm_compute. repeat split. Qed.
+Print Assumptions C16_facts_pinned.
